@@ -701,13 +701,22 @@ func (g *gen) keyProbe(hf *hframe) {
 	c := hf.cols[r.Intn(len(hf.cols))]
 	rev, gbn, nl := r.Bool(), r.Bool(), r.Bool()
 	k := 1 + r.Intn(8)
+	all := hf.n <= 8 // small frames: every ordered pair of rows (both infinities, both zeros, a null and "" meet for sure)
+	if all {
+		k = hf.n * hf.n
+	}
 	toks := []string{"KC", tx.Int(hf.id), tx.HexS(c.name), tx.Bool01(rev), tx.Bool01(gbn), tx.Bool01(nl), tx.Int(k)}
 	rows := map[int]bool{}
 	var pmsg string
 	for i := 0; i < k; i++ {
-		a, b := r.Intn(hf.n), r.Intn(hf.n)
-		if r.P(1, 6) {
-			b = a
+		a, b := 0, 0
+		if all {
+			a, b = i/hf.n, i%hf.n
+		} else {
+			a, b = r.Intn(hf.n), r.Intn(hf.n)
+			if r.P(1, 6) {
+				b = a
+			}
 		}
 		rows[a], rows[b] = true, true
 		res := -1
